@@ -10,7 +10,7 @@ from sim.core import H, Violation, digest
 ID = "C15"
 LEVEL = "exploration"
 BATCH = 16
-QUICK_WORLDS = 320
+QUICK_WORLDS = 480
 THOROUGH_BUDGET_S = 600
 RUN_TIMEOUT = 120
 RULE = ("world = MinGenSet instance (<= 5 numbers <= 14 built as sub-multiset sums of a hidden base, total, max_multiplicity 1-3, lower "
